@@ -68,6 +68,16 @@ def digest(obj) -> str:
     return hashlib.sha256(json.dumps(obj, sort_keys=True, separators=(",", ":")).encode()).hexdigest()[:20]
 
 
+def labels(c, out=None):
+    """Set of 'type|obfuscation' labels in a canonical tree (reach probe)."""
+    if out is None:
+        out = set()
+    out.add(f"{c[0]}|{c[2]}")
+    for k in c[5]:
+        labels(k, out)
+    return out
+
+
 def count_nodes(c) -> int:
     return 1 + sum(count_nodes(k) for k in c[5])
 
